@@ -429,6 +429,37 @@ let rec run_case (kind : string) (body : sexp list) : string * string =
         | SReady SEnd -> "end" in
       let r = String.concat " " (List.map show (run_stream false ls)) in
       (r, r)
+  | "tostream_wake" ->
+      (* the consumer is a task: whenever it is woken (a message was queued while it was parked on Pending) it polls the stream
+         until it answers Pending or ends.  The producer's error() queues two messages (the error, the end marker): the
+         consumer runs between the two. *)
+      let ls = List.map (function Atom "poll" -> FPoll | e -> FEv (ev_of e)) (args (List.nth body 0)) in
+      let s = ref strm0 and registered = ref false and finished = ref false and out = ref [] in
+      let show = function
+        | SPending -> "pending"
+        | SReady (SItem v) -> let b = Buffer.create 8 in show_val b v; "(item " ^ Buffer.contents b ^ ")"
+        | SReady (SErrItem e) -> Printf.sprintf "(erritem %d)" (int_of_z e)
+        | SReady SEnd -> "end" in
+      let rec drain () =
+        if not !finished then begin
+          let (s', r) = sstep_ false !s FPoll in
+          s := s';
+          List.iter (fun x -> out := show x :: !out) r;
+          match r with
+          | [SPending] -> registered := true
+          | [SReady SEnd] -> finished := true
+          | _ -> drain ()
+        end in
+      let wake () = if !registered then (registered := false; drain ()) in
+      List.iter (fun l -> match l with
+          | FPoll -> registered := false; drain ()
+          | FEv (Err x) when !s.s_obs ->
+              let (s1, _) = sstep_ true !s (FEv (Err x)) in
+              s := s1; wake ();
+              s := { !s with s_queue = !s.s_queue @ [SEnd] }; wake ()
+          | FEv e -> let was = !s.s_obs in let (s1, _) = sstep_ false !s (FEv e) in s := s1; if was then wake ()) ls;
+      let r = String.concat " " (List.rev !out) in
+      (r, r)
   | "status" ->
       (* the flag follows the first terminal; a waiter always returns (C14_no_lost_wakeup: whatever the
          interleaving of the producer's store / wake with the waiter's check / register / re-check) *)
@@ -448,6 +479,13 @@ let rec run_case (kind : string) (body : sexp list) : string * string =
               out := (if waiter_safe (wrun false sched) then "returned" else "HANG") :: !out
           | e -> term (ev_of e)) (args (List.nth body 0));
       let r = String.concat " " (List.rev !out) in
+      (r, r)
+  | "status2" ->
+      (* complete_status above an operator that finishes early: the flags follow the source's first terminal *)
+      let evs = List.map ev_of (args (List.nth body 1)) in
+      let rec first = function [] -> 0 | Done :: _ -> 1 | Err _ :: _ -> -1 | Next _ :: r -> first r in
+      let f = first evs in
+      let r = Printf.sprintf "(flags %s %s %s)" (if f <> 0 then "#t" else "#f") (if f > 0 then "#t" else "#f") (if f < 0 then "#t" else "#f") in
       (r, r)
   | "share" ->
       (* (share FORM SRC share|publish (ops OP...)) *)
